@@ -421,6 +421,11 @@ def unit_compile_block(eng, context, base_settled, start_kind, end_scope=False):
     def post(eng, o):
         I = eng.I
         kind, val = o
+        # frame: a statement's syntax tokens are compiled once per copy of a repeated body and once per inclusion - nothing computed from the state
+        # ('.', symbols, the statement's address) may be kept on a token; only once-only diagnostic flags (booleans) are written there
+        kept = sorted(set((str(getattr(n_[1], "name", "?")), n_[2]) for n_ in eng.path.notes
+                          if n_[0] == "store" and isinstance(n_[1], Obj) and "ctx_start" in n_[1].attrs and not isinstance(n_[3], bool)))
+        eng.prove("frame:no-evaluated-value-is-stored-on-the-syntax-tokens%s" % (":" + str(kept) if kept else ""), not kept)
         if kind == "raise":
             eng.prove("only-RecoverableError-escapes-and-only-after-an-error", val.cls == "RecoverableError" and any(e[0] == "error" for e in eng.path.events))
             return
